@@ -97,7 +97,8 @@ PROPS["C19"] = {
     "theorems": ["Toxi.Client." + t for t in [
         "C19_errors_surface", "C19_lookup_failure_stops", "C19_update_keeps_toxicity", "C19_update_sets_toxicity",
         "C19_add_defaults", "C19_cli_update_fixed", "C19_cli_update_body", "C19_cli_legacy_resets",
-        "C19_toggle_request", "C19_cli_add_needs_type", "get_proxy_state", "get_proxy_status"]],
+        "C19_toggle_request", "C19_cli_add_needs_type", "get_proxy_state", "get_proxy_status",
+        "C19_handle_always_sends", "C19_handle_enable_effect", "updateProxy_ok_enabled", "proxyBody_decode"]],
     "engines": [{"engine": "e5", "args": ["-props", "C19"], "tag": "C19"}],
     "model_scope": "client/client.go (Proxies, Proxy, CreateProxy, ResetState, AddToxic, UpdateToxic, RemoveToxic, get/post/patch/delete, validateResponse), client/proxy.go (Save, Enable, Disable, Delete, Toxics, AddToxic, UpdateToxic, RemoveToxic), cmd/cli/cli.go (list, inspect, create, toggle, delete, toxic add/update/remove: the requests they cause and their exit status); the server side is the API model of C05",
     "assumptions": _E4_ASSUME + [
